@@ -56,7 +56,8 @@ REQUIRED = ('representation_states_compared', 'negative_key_mappings',
             'card_round_trips', 'card_text_forms', 'invalid_layouts_refused',
             'valid_neighbours_accepted', 'divmod_postconditions',
             'rake_postconditions', 'game_class_forms',
-            'game_object_reuse_states', 'operation_card_forms')
+            'game_object_reuse_states', 'operation_card_forms',
+            'hand_card_forms')
 EXHAUSTIVE = {'quick': False, 'thorough': False}
 
 AUTOS = tuple(Automation)
@@ -324,6 +325,56 @@ def check_operation_card_forms(res, rng):
                 res.sigs.add(sig('opform', opname_, kind, bool(card)))
 
 
+def check_hand_card_forms(res, rng):
+    """Hole and board cards given to a hand type as text, list, tuple,
+    one-shot iterator or generator denote the same cards: same hand."""
+    deck = list(Deck.STANDARD)
+    for clsname, nh, nb in (('StandardHighHand', 2, 5),
+                            ('GreekHoldemHand', 2, 5),
+                            ('OmahaHoldemHand', 4, 5),
+                            ('OmahaEightOrBetterLowHand', 4, 5),
+                            ('StandardLowHand', 5, 0),
+                            ('BadugiHand', 4, 0)):
+        cls = getattr(pk_hands, clsname)
+        cards = rng.sample(deck, nh + nb)
+        hole, board = cards[:nh], cards[nh:]
+        try:
+            ref = cls.from_game_or_none(tuple(hole), tuple(board))
+        except Exception as exc:   # noqa: BLE001
+            res.violation(f'{clsname}.from_game_or_none raised '
+                          f'{type(exc).__name__}', {'kind': 'handform'})
+            continue
+        th = ''.join(map(repr, hole))
+        tb = ''.join(map(repr, board))
+        for kind in ('text', 'list', 'iterator', 'generator', 'parse',
+                     'filter'):
+            def mk(cs, t):
+                return {'text': t, 'list': list(cs), 'iterator': iter(cs),
+                        'generator': (c for c in cs),
+                        'parse': Card.parse(t),
+                        'filter': filter(None, list(cs))}[kind]
+            res.counters['hand_card_forms'] += 1
+            try:
+                got = cls.from_game_or_none(mk(hole, th), mk(board, tb))
+            except Exception as exc:   # noqa: BLE001
+                res.violation(
+                    f'{clsname}.from_game_or_none({kind} of {th}, {kind} of '
+                    f'{tb}) raised {type(exc).__name__}: {exc}',
+                    {'kind': 'handform', 'cls': clsname, 'hole': th,
+                     'board': tb, 'form': kind})
+                continue
+            if (got is None) != (ref is None) or (
+                    got is not None and (got != ref or sorted(
+                        map(repr, got.cards)) != sorted(
+                            map(repr, ref.cards)))):
+                res.violation(
+                    f'{clsname}.from_game_or_none({kind} of {th}, {kind} of '
+                    f'{tb}) = {got!r}, the tuple form gives {ref!r}',
+                    {'kind': 'handform', 'cls': clsname, 'hole': th,
+                     'board': tb, 'form': kind})
+            res.sigs.add(sig('handform', clsname, kind))
+
+
 def check_cards(res, rng, exhaustive):
     ranks = list(Rank)
     suits = list(Suit)
@@ -432,6 +483,15 @@ INVALID = [
     ('posts with a bring-in',
      dict(bring_in=1, raw_blinds_or_straddles=(0, 0, -2)),
      dict(bring_in=0, raw_blinds_or_straddles=(1, 2, -2))),
+    ('blind and post cancelling out, with a bring-in',
+     dict(bring_in=1, raw_blinds_or_straddles=(0, 2, -2)),
+     dict(bring_in=0, raw_blinds_or_straddles=(0, 2, -2))),
+    ('blind and post cancelling out (mapping), with a bring-in',
+     dict(bring_in=1, raw_blinds_or_straddles={1: 2, -1: -2}),
+     dict(bring_in=0, raw_blinds_or_straddles={1: 2, -1: -2})),
+    ('straddle only, with a bring-in',
+     dict(bring_in=1, raw_blinds_or_straddles={2: 4}),
+     dict(bring_in=0, raw_blinds_or_straddles={2: 4})),
     ('no forced bet at all', dict(raw_blinds_or_straddles=0),
      dict(raw_blinds_or_straddles=0, raw_antes=1)),
     ('no forced bet (empty mapping)', dict(raw_blinds_or_straddles={}),
@@ -596,6 +656,8 @@ def run_shard(seed, shard, of, tier, deadline):
             check_game_reuse(res, rng)
         if k % 25 == 0:
             check_operation_card_forms(res, rng)
+        if k % 10 == 0:
+            check_hand_card_forms(res, rng)
         if k < 1:
             res.add_sample({'kinds': 'representations, cards, invalid '
                             'layouts, helper sweeps'}, limit=1)
